@@ -8,7 +8,7 @@
    _bounded are additional kernel computations over complete finite domains. *)
 From Coq Require Import ZArith List Bool.
 Import ListNotations.
-From CF Require Import ZSum ListAux Defs Core Machines Config ConfigLink BoundsLink ParkingLink ParkingCount PyLib Translated TranslatedLink Det LatticeIndex MatrixTree PyDict ImpRep ImpLinkScript TranslatedImpCFConfig ImpLinkConfig TranslatedImpCFConfigMoves ImpLinkConfigMoves ImpLinkConfigOrder.
+From CF Require Import ZSum ListAux Defs Core Machines Config ConfigLink BoundsLink ParkingLink ParkingCount PyLib Translated TranslatedLink Det LatticeIndex MatrixTree PyDict ImpRep ImpLinkScript TranslatedImpCFConfig ImpLinkConfig TranslatedImpCFConfigMoves ImpLinkConfigMoves ImpLinkConfigOrder ImpLinkConfigLegal.
 Open Scope Z_scope.
 
 Theorem C10_legal : forall g, wfb g = true -> forall D S, (forall v, In v S -> In v (Vg g)) ->
@@ -132,6 +132,15 @@ Theorem C10_source_order : forall g1 g2 gg1 gg2 vs1 vs2 q1 q2 vt1 vt2 dd1 dd2 D 
 Proof. intros g1 g2 gg1 gg2 vs1 vs2 q1 q2 vt1 vt2 dd1 dd2 D E so W1 W2 G1 G2 V1 V2 T1 T2 N1 R1 R2 Hso. split; [apply comparable_refines; assumption|].
   split; [apply config_eq_refines; assumption|]. split; [apply config_ge_refines; assumption|apply config_le_refines; assumption]. Qed.
 Print Assumptions C10_source_order.
+
+(* CFConfig.is_legal_set_firing translated from the CURRENT source - validation of the members, `self.copy()` (checked to be CFConfig(copy.deepcopy(self.divisor), q): the translated
+   constructor on equal dictionaries), set_fire on the copy, then the test of the members: it is exactly is_legal_set_firing of the model, whose meaning is C10_legal and whose
+   refusals are C10_legal_refusals; the configuration itself is only read (the result carries no state) *)
+Theorem C10_source_is_legal_set_firing : forall g gg vs q vt dd D so U, wfb g = true -> rep_graph gg g -> rep_vset (nv g) vs -> NoDup vs -> rep_vtilde (nv g) q vt -> (q < nv g)%nat ->
+  rep_div (nv g) dd D -> (forall l, Permutation.Permutation (so l) l) ->
+  CFConfigMoves_is_legal_set_firing q vt vs dd gg so U = match is_legal_set_firing g q D U with Err => PyExn tt | Ok b => PyOk b end.
+Proof. intros g gg vs q vt dd D so U Hwf Hg Hvs Hnd Hvt Hq HD Hso. apply is_legal_set_firing_refines; assumption. Qed.
+Print Assumptions C10_source_is_legal_set_firing.
 
 (* ---- bounded identities (complete finite domains, kernel computation) ---- *)
 (* K_(n+1), n <= 4, sink 0: a configuration in the box [0..n]^n is superstable iff shifting it up by one gives a parking function *)
